@@ -1229,6 +1229,7 @@ namespace
             return {};
         }
         auto val = params[1];
+        auto oldsize = arr->size();
         if (static_cast<int>(arr->size()) <= index)
         {
             arr->resize(index + 1);
@@ -1238,6 +1239,7 @@ namespace
         if (!arr->recursion_test())
         {
             (*arr)[index] = oldval;
+            arr->resize(oldsize);
             runtime.__logmsg(err::ArrayRecursion(runtime.context_active().current_frame().diag_info_from_position()));
             return {};
         }
@@ -1277,8 +1279,15 @@ namespace
     value append_array_array(runtime& runtime, value::cref left, value::cref right)
     {
         auto arr = left.data<d_array>();
-        auto r = right.data<d_array>();
-        arr->insert(arr->end(), r->begin(), r->end());
+        // copy the elements first: the right side may be the very same array
+        auto elements = right.data<d_array>()->value();
+        auto oldsize = arr->size();
+        arr->insert(arr->end(), elements.begin(), elements.end());
+        if (!arr->recursion_test())
+        {
+            arr->resize(oldsize);
+            runtime.__logmsg(err::ArrayRecursion(runtime.context_active().current_frame().diag_info_from_position()));
+        }
         return {};
     }
     value arrayintersect_array_array(runtime& runtime, value::cref left, value::cref right)
